@@ -82,7 +82,7 @@ def prove(rep, nmfu, program):
         spec = {o.name: o for o in c.cctx.state_object_spec}
         cc = c.cctx
     except Exception as e:
-        rep.undecided_ob(f"C14/pyvc/{FNQ}/setup", f"could not compile the representative declarations: {type(e).__name__}: {e}")
+        rep.unavailable(f"C14/pyvc/{FNQ}/setup", f"could not compile the representative declarations: {type(e).__name__}: {e}")
         return 0
 
     def sobj(real):
